@@ -239,6 +239,15 @@ CHECKS["C16"] = {
                         ("c16_activation_fds1_nonames", "absent, LISTEN_FDS one character", ("quick", "thorough")),
                         ("c16_activation_fds1_names1", "= a:varlink, LISTEN_FDS one character", ("thorough",)),
                         ("c16_activation_fds0", "absent, LISTEN_FDS empty", ("thorough",))]
+    ] + [
+        H("c16_scheme", mod="server::verif_server::c16", timeout=(1800, 3600),
+          functions=["varlink::Listener::new", "varlink::varlink_connect"],
+          symbolic="address: 8 characters out of [t c p : u n i x @ ;]",
+          bounds="8-byte addresses; no activation; unwind 12",
+          stubs=["TcpListener::bind, TcpStream::connect, UnixListener::bind, UnixStream::connect, fs::remove_file, "
+                 "get_abstract_unixlistener, get_abstract_unixstream -> record which transport is reached with which "
+                 "name, return an I/O error", "activation_listener -> None", "memchr -> naive loop",
+                 "alloc::fmt::format -> String::new()"]),
     ],
     "assumptions": [
         "reduced claim: the address / activation decision logic in front of the system calls; equivalence of replies "
@@ -317,67 +326,10 @@ CHECKS["C12"] = {
     ],
 }
 
-C11_STUBS = ["std::hash::RandomState::new -> fixed keys",
-             "std::collections::HashSet::insert (IDL.error) -> ghost counter of reported definition errors",
-             "alloc::fmt::format -> String::new() (so the error TEXT is not inspected)"]
-
-
-def c11_h(name, kinds, tiers):
-    return H(name, mod="verif_parser::c11", package="varlink_parser", tiers=tiers, timeout=(1500, 3600),
-             functions=["varlink_parser::IDL::from_token"],
-             symbolic="the name of each member, drawn from a pool of two",
-             bounds="member kinds %s (constants of the instance); unwind 6" % kinds, stubs=C11_STUBS,
-             # the members carry empty argument lists; the recursive drop glue of the AST types is cut at depth 1
-             loop_rules=[("rec:drop_glue::<.*(VTypeExt|VType|VStruct|VEnum|Argument)", 1),
-                         (r"drop_glue::<\[Argument", 2), ("=memcmp.0", 8)])
-
-
-CHECKS["C11"] = {
-    "design_ref": "3/C11",
-    "harnesses": [
-        c11_h("c11_dup_mm", "[method, method]", ("quick", "thorough")),
-        c11_h("c11_dup_mt", "[method, type]", ("quick", "thorough")),
-        c11_h("c11_dup_me", "[method, error]", ("quick", "thorough")),
-        c11_h("c11_dup_tm", "[type, method]", ("thorough",)),
-        c11_h("c11_dup_tt", "[type, type]", ("quick", "thorough")),
-        c11_h("c11_dup_te", "[type, error]", ("quick", "thorough")),
-        c11_h("c11_dup_em", "[error, method]", ("thorough",)),
-        c11_h("c11_dup_et", "[error, type]", ("thorough",)),
-        c11_h("c11_dup_ee", "[error, error]", ("quick", "thorough")),
-        c11_h("c11_dup_mte", "[method, type, error]", ("thorough",)),
-        c11_h("c11_dup_etm", "[error, type, method]", ("thorough",)),
-    ],
-    "assumptions": [
-        "reduced claim: duplicate detection and order of appearance in IDL::from_token. Acceptance / rejection of whole "
-        "texts by the peg grammar (language equality, the interface-name rule) needs the parser on symbolic text and "
-        "is outside CBMC's reach (DESIGN P9); 'every duplicated name is named in the error' needs the formatted text",
-    ],
-}
-
-CHECKS["C02"] = {
-    "design_ref": "3/C02",
-    "harnesses": [
-        H("c02_cut%d" % c, mod="verif_lib::c01", tiers=t, timeout=(2400, 7200), functions=HANDLE_FUNCS,
-          symbolic="per message: number of replies the implementation writes (0..2)",
-          bounds="stream 'm' NUL 'm' NUL 't' fed whole vs. in two chunks cut at byte %d (%s), tail re-fed; unwind 12" % (c, d),
-          stubs=STUB_HANDLE, loop_rules=HANDLE_LOOPS, witness="search")
-        for c, d, t in [(0, "empty first chunk", ("thorough",)), (1, "inside the first message", ("quick", "thorough")),
-                        (2, "on the message boundary", ("quick", "thorough")), (3, "inside the second message", ("quick", "thorough")),
-                        (4, "after the last complete message", ("thorough",)), (5, "whole stream first", ("thorough",))]
-    ] + [
-        # the upgrade hand-over clause is decided by the C01 harnesses' P:c02.* assertions
-        handle_h("c01_k2_dd", 2, "[dispatched, dispatched] (upgrade hand-over clause)", ("quick", "thorough")),
-        handle_h("c01_k3_ddd", 3, "[dispatched x3] (upgrade hand-over clause)", ("thorough",)),
-    ],
-    "assumptions": CHECKS["C01"]["assumptions"] + [
-        "one cut point per harness instance, every structural position of the cut; k cuts follow by induction on the "
-        "single-cut lemma (stated, not checked)",
-        "messages larger than the internal buffer: BufReader capacity is 4 here and the 5-byte stream crosses it; the "
-        "real 8 KiB capacity is a constant of std",
-        "the listen() worker discards the tail handle() returns after an upgrade (server.rs: Ok((_, i))); listen() cannot "
-        "be compiled by Kani 0.68 (DESIGN P15), so that call site is outside the check",
-    ],
-}
+# C11 (duplicate detection in IDL::from_token) was attempted and is NOT claimed: harness/parser/c11.rs with
+# the recursion cuts below still runs out of memory (14 GB, > 850 s) for two members with a single
+# solver-chosen name - BTreeMap<&str, Method> insertion plus the recursive drop glue of the AST types.
+# See DESIGN.md section 5.
 
 CHECKS["C06"] = {
     "design_ref": "3/C06",
